@@ -81,6 +81,16 @@ fn make_noise(rng: &mut StdRng, cat: &str, base: &Msg, ex: &Exec, port: usize) -
         }
         "bad-length" => {
             let b = m.encode();
+            if rng.gen_bool(0.4) {
+                // 1-3 stray octets behind the last TLV (or the body), covered by messageLength
+                // and really there: too short to be a TLV, the message is malformed
+                let k = rng.gen_range(1..=3usize);
+                let mut b2 = b.clone();
+                b2.extend((0..k).map(|_| if rng.gen_bool(0.5) { 0u8 } else { rng.gen() }));
+                let l = b2.len() as u16;
+                b2[2..4].copy_from_slice(&l.to_be_bytes());
+                return Some((b2, event));
+            }
             let mut b2 = b.clone();
             let l = [(b.len() + 1) as u16, (b.len() + 40) as u16, 33, 0, 65535][rng.gen_range(0..5)];
             b2[2..4].copy_from_slice(&l.to_be_bytes());
